@@ -197,6 +197,379 @@ def check_base64(ctx, d, exe, strings):
     ctx.sample(dict(kind="base64-decode", input=hexs(texts[0]), model=mo[0], impl=io[0]))
 
 
+# ------------------------------------------------------------------------------------------ base64: port (streaming) and header variants
+def _scm_const(src, name, env):
+    """value of (define NAME <expr>) for the tiny expression language the constants of base64.scm use"""
+    import math, re
+    m = re.search(r"\(define\s+%s\s+((?:\([^()]*\))|[^\s()]+)\s*\)" % re.escape(name), src)
+    if not m:
+        raise ValueError("no definition of " + name)
+    return _scm_eval(m.group(1), env)
+
+
+def _scm_eval(tx, env):
+    import math, re
+    tx = tx.strip()
+    if re.fullmatch(r"\d+", tx):
+        return int(tx)
+    if tx in env:
+        return env[tx]
+    m = re.fullmatch(r"\(\s*(lcm|\*|\+)\s+([^\s()]+)\s+([^\s()]+)\s*\)", tx)
+    if not m:
+        raise ValueError("expression outside the subset: " + tx)
+    a, b = _scm_eval(m.group(2), env), _scm_eval(m.group(3), env)
+    return {"lcm": a * b // math.gcd(a, b), "*": a * b, "+": a + b}[m.group(1)]
+
+
+def b64_chunk_sizes(ctx):
+    """(decode chunk, encode chunk) read from lib/chibi/base64.scm; the theorems hold for every chunk size, the tie needs
+    the real ones to put its line breaks around the real boundaries"""
+    import re
+    src = open(os.path.join(B.REPO, "lib", "chibi", "base64.scm")).read()
+    try:
+        env = {}
+        env["decode-src-length"] = _scm_const(src, "decode-src-length", env)
+        env["encode-src-length"] = _scm_const(src, "encode-src-length", env)
+        m = re.search(r"\(read-bytevector!\s+src\s+in\s+0\s+([^\s()]+)\)", src)
+        if not m:
+            raise ValueError("the read-bytevector! of base64-encode was not found")
+        enc = _scm_eval(m.group(1), env)
+        m2 = re.search(r"\(read-bytevector!\s+src\s+in\s+offset\s+([^\s()]+)\)", src)
+        if not m2:
+            raise ValueError("the read-bytevector! of base64-decode was not found")
+        dec = _scm_eval(m2.group(1), env)
+        return dec, enc
+    except ValueError as e:
+        ctx.broken("gen:base64-chunk-sizes", "lib/chibi/base64.scm: %s; using 2964 / 3072" % e)
+        return 2964, 3072
+
+
+B64_ALPHA = b"ABCDEFGHIJKLMNOPQRSTUVWXYZabcdefghijklmnopqrstuvwxyz0123456789+/"
+B64_INBAND = set(B64_ALPHA + b"-_~")
+
+
+def wrap_text(enc, width, nl, first):
+    """line-wrap `enc`: first line `first` characters, then `width` per line"""
+    out, i = bytearray(), 0
+    n = first if first > 0 else width
+    while i < len(enc):
+        out += enc[i:i + n]
+        i += n
+        if i < len(enc):
+            out += nl
+        n = width
+    return bytes(out)
+
+
+def chunk_boundaries(text, N, maxn=4):
+    """stream positions at which the port decoder's chunks end (pending sextets are carried into the next chunk)"""
+    out, pos, carry = [], 0, 0
+    while len(out) < maxn:
+        end = pos + (N - carry)
+        if end > len(text):
+            break
+        out.append(end)
+        seg = text[pos:end]
+        if b"=" in seg:
+            break
+        carry = (carry + sum(1 for c in seg if c in B64_INBAND)) % 4
+        pos = end
+    return out
+
+
+def py_liberal_b64decode(text):
+    """independent oracle of what base64.scm documents: out-of-band characters are stripped, '=' ends the text,
+    - _ ~ are the alternate 62/63 characters, a trailing partial quantum yields the bytes it determines"""
+    sx = []
+    for c in text:
+        if c == 0x3d:
+            break
+        if c in B64_INBAND:
+            sx.append(62 if c in b"+-" else 63 if c in b"/_~" else B64_ALPHA.index(bytes([c])))
+    out = bytearray()
+    for i in range(0, len(sx) - 3, 4):
+        a, b, c, e = sx[i:i + 4]
+        out += bytes([(a << 2 | b >> 4) & 255, (b << 4 | c >> 2) & 255, (c << 6 | e) & 255])
+    r = sx[len(sx) - len(sx) % 4:]
+    if len(r) == 1:
+        out.append((r[0] << 2) & 255)
+    elif len(r) == 2:
+        out.append((r[0] << 2 | r[1] >> 4) & 255)
+    elif len(r) == 3:
+        out += bytes([(r[0] << 2 | r[1] >> 4) & 255, (r[1] << 4 | r[2] >> 2) & 255])
+    return bytes(out)
+
+
+def text_payload(rng, n):
+    """valid UTF-8 of exactly n bytes (ASCII with some 2- and 3-byte characters)"""
+    out = bytearray()
+    while len(out) < n:
+        r = rng.random()
+        left = n - len(out)
+        if r < 0.1 and left >= 3:
+            out += chr(rng.randrange(0x800, 0xd800)).encode()
+        elif r < 0.25 and left >= 2:
+            out += chr(rng.randrange(0x80, 0x800)).encode()
+        else:
+            out.append(rng.choice(b"abcdefghij XYZ0123456789.,;?_=\r\n\t"))
+    return bytes(out)
+
+
+def check_base64_stream(ctx, d, exe):
+    rng = ctx.rng
+    N, E = b64_chunk_sizes(ctx)
+    ctx.note("base64 port variants: decode chunk %d, encode chunk %d (read from lib/chibi/base64.scm)" % (N, E))
+    # ---------------- decoder on a binary port
+    texts = []          # (text, kind, payload or None)
+
+    def add(text, kind, payload=None):
+        texts.append((text, kind, payload))
+
+    def payload_for(nchars):
+        return bytes(rng.getrandbits(8) for _ in range(nchars * 3 // 4))
+
+    widths = list(range(60, 81))
+    for w in widths:
+        for nl in (b"\n", b"\r\n"):
+            step = w + len(nl)
+            # a line break at every offset -4..+4 around the first chunk boundary
+            for off in range(-4, 5):
+                first = (N + off) % step
+                pl = payload_for(N + rng.randrange(40, 400))
+                add(wrap_text(pyb64.b64encode(pl), w, nl, first), "wrap%d-%s-b1%+d" % (w, "crlf" if len(nl) == 2 else "lf", off), pl)
+            # two and three boundaries: find a phase that puts a break within -4..+4 of the LAST boundary
+            for nb in ((2, 3) if ctx.thorough or (w + len(nl)) % 3 == 0 else (2 + (w + len(nl)) % 2,)):
+                pl = payload_for(nb * N + rng.randrange(40, 400))
+                enc = pyb64.b64encode(pl)
+                want_off = rng.randrange(-4, 5)
+                best = None
+                for first in rng.sample(range(1, step + 1), min(step, 24)):
+                    t = wrap_text(enc, w, nl, first)
+                    bs = chunk_boundaries(t, N)
+                    if len(bs) >= nb:
+                        b = bs[nb - 1]
+                        near = any(t[p:p + 1] in (b"\n", b"\r") for p in range(max(0, b - 4), b + 4))
+                        if best is None or near:
+                            best = t
+                        if near and t[b + want_off:b + want_off + 1] in (b"\n", b"\r"):
+                            best = t
+                            break
+                add(best if best is not None else wrap_text(enc, w, nl, 0), "wrap%d-%s-b%d" % (w, "crlf" if len(nl) == 2 else "lf", nb), pl)
+    if ctx.thorough:
+        for w in widths:
+            for nl in (b"\n", b"\r\n"):
+                for first in range(1, w + len(nl) + 1):
+                    pl = payload_for(2 * N + rng.randrange(40, 400))
+                    add(wrap_text(pyb64.b64encode(pl), w, nl, first), "wrap%d-phase%d" % (w, first), pl)
+    # exact lengths relative to the chunk size (no white space), incl. the empty text
+    for ln in [0, 1, 2, 3, 4, 5, N - 5, N - 4, N - 3, N - 2, N - 1, N, N + 1, N + 2, N + 3, N + 4, 2 * N - 1, 2 * N, 2 * N + 1, 3 * N, 3 * N + 3]:
+        if ln >= 0:
+            add(bytes(rng.choice(B64_ALPHA) for _ in range(ln)), "exact-len")
+    # padding, junk and white space of every kind astride the boundaries
+    for off in range(-5, 6):
+        for b in (N, 2 * N):
+            base = bytearray(rng.choice(B64_ALPHA) for _ in range(b + 40))
+            t = bytearray(base); t[b + off:b + off] = b"=="; add(bytes(t), "pad-at-boundary%+d" % off)
+            t = bytearray(base); t[b + off:b + off] = b" \t \r\n"; add(bytes(t), "blanks-at-boundary%+d" % off)
+            t = bytearray(base); t[b + off:b + off] = bytes(rng.choice(B64_OUTSIDE) for _ in range(3)); add(bytes(t), "junk-at-boundary%+d" % off)
+            t = bytearray(base); t[b + off] = ord("\n"); add(bytes(t), "lf-replaces%+d" % off)
+            t = bytearray(base[:b + off]); add(bytes(t) + b"=", "ends-with-pad%+d" % off)
+    for _ in range(40 if not ctx.thorough else 600):
+        pl = payload_for(rng.choice([N, 2 * N, 3 * N]) + rng.randrange(-8, 400))
+        t = wrap_text(pyb64.b64encode(pl), rng.choice(widths), rng.choice((b"\n", b"\r\n")), rng.randrange(0, 60))
+        add(mutate(rng, t, b"AZaz09+/=-_~ \r\n\t"), "hostile")
+    exprs = ['(let* ((t (hx "%s")) (out (open-output-bytevector))) (base64-decode (open-input-bytevector t) out) '
+             '(list (xh (get-output-bytevector out)) (if (equal? (get-output-bytevector out) (base64-decode-bytevector t)) (quote same) (quote DIFFERS))))' % hexs(t) for t, _, _ in texts]
+    mo = run_model(exe, ["b64sdec %d %s" % (N, hexs(t)) for t, _, _ in texts])
+    io = scm.run_cases(d, exprs, prelude_extra=PRELUDE, imports=IMPORTS, timeout=300, chunk=150)
+    shown = False
+    for (t, kind, pl), m, i in zip(texts, mo, io):
+        ctx.count(1, key=("b64sdec", t), nontrivial=len(t) > 0)
+        if m == "FUEL":
+            ctx.broken("model:base64-stream-fuel", "stream_dec ran out of fuel (stream_decode_equals_decode says it cannot): %s" % hexs(t)[:100])
+            continue
+        oracle = py_liberal_b64decode(t)
+        if pl is not None and oracle != pl:
+            raise RuntimeError("generator: oracle disagrees with the payload")
+        if unhex(m[2:]) != oracle:
+            ctx.broken("model:base64-stream-vs-oracle", "the model's stream decoder differs from the liberal RFC 4648 oracle on %s" % hexs(t)[:200])
+        want = "(%s same)" % xs(oracle)
+        if i != want:
+            lens = " ".join(str(x) for x in chunk_boundaries(t, N))
+            rp = ("python3 -c 'import sys; sys.stdout.buffer.write(bytes.fromhex(\"%s\"))' > /tmp/c19-b64.txt; echo '(import (scheme base) (scheme write) (scheme file) (chibi base64)) "
+                  "(let ((out (open-output-bytevector))) (call-with-port (open-binary-input-file \"/tmp/c19-b64.txt\") (lambda (in) (base64-decode in out))) (write (get-output-bytevector out)))' "
+                  "| chibi-scheme /dev/stdin   # expected: %d bytes, sha1-free check: python3 -c 'import base64;print(list(base64.b64decode(open(\"/tmp/c19-b64.txt\",\"rb\").read()))[:8])'" % (t.hex(), len(oracle)))
+            if bad(i):
+                sig = "base64:stream-decode:crash"
+            elif i.startswith("ERR"):
+                sig = "base64:stream-decode:error:" + ("empty-or-chunk-multiple" if len(t) % N == 0 else "other")
+            else:
+                sig = "base64:stream-decode:wrong-bytes:" + ("line-break-near-chunk-boundary" if kind.startswith("wrap") or "boundary" in kind else kind)
+            ctx.violation(sig, input_len=len(t), kind=kind, chunk=N, chunk_ends=lens, input=hexs(t)[:6000], expected=want[:400], observed=(i or "")[:400], replay=rp,
+                          why="base64-decode on a binary port must write what base64-decode-bytevector returns (theorem stream_decode_equals_decode)")
+        elif not shown and kind.startswith("wrap"):
+            ctx.sample(dict(kind="base64-stream-decode", what=kind, input_len=len(t), chunk_ends=chunk_boundaries(t, N), model=m[:60], impl=i[:60])); shown = True
+    # ---------------- decoder / encoder on a TEXTUAL port (payload must be text: the result goes through utf8->string)
+    tcases = []
+    for n in [0, 1, 2, 3, 10, 57, 58, 100, 1000, N * 3 // 4 + 10, 2 * N]:
+        tcases.append(text_payload(rng, n))
+    exprs, want = [], []
+    for pl in tcases:
+        enc = wrap_text(pyb64.b64encode(pl), 76, b"\r\n", 0)
+        exprs.append('(let ((out (open-output-string))) (base64-decode (open-input-string (utf8->string (hx "%s"))) out) (xh (string->utf8 (get-output-string out))))' % hexs(enc))
+        want.append(xs(pl))
+        exprs.append('(let ((out (open-output-string))) (base64-encode (open-input-string (utf8->string (hx "%s"))) out) (xh (string->utf8 (get-output-string out))))' % hexs(pl))
+        want.append(xs(pyb64.b64encode(pl)))
+        exprs.append('(xh (string->utf8 (base64-decode-string (base64-encode-string (utf8->string (hx "%s"))))))' % hexs(pl))
+        want.append(xs(pl))
+    io = scm.run_cases(d, exprs, prelude_extra=PRELUDE, imports=IMPORTS, timeout=300, chunk=100)
+    for e, w_, i in zip(exprs, want, io):
+        ctx.count(1, key=("b64text", e), nontrivial=True)
+        if i != w_:
+            ctx.violation("base64:textual-port-or-string-variant", input=e[:3000], expected=w_[:400], observed=(i or "")[:400],
+                          replay="echo '(import (scheme base) (scheme write) (chibi base64)) %s (write %s)' | chibi-scheme /dev/stdin" % (PRELUDE.replace("\n", " ").replace("'", "'\\''"), e[:100000].replace("'", "'\\''")))
+    # ---------------- encoder on a binary port
+    lens = sorted(set([0, 1, 2, 3, 4, 5, 100, 2047, 2048, 2049, 4095, 4096, 4097, 6144, E - 2, E - 1, E, E + 1, E + 2, 2 * E - 1, 2 * E, 2 * E + 1, 3 * E, 3 * E + 1]
+                      + [rng.randrange(1, 3 * E + 200) for _ in range(12 if not ctx.thorough else 200)]))
+    pls = [bytes(rng.getrandbits(8) for _ in range(n)) for n in lens if n >= 0]
+    exprs = ['(let ((out (open-output-bytevector))) (base64-encode (open-input-bytevector (hx "%s")) out) (xh (get-output-bytevector out)))' % hexs(pl) for pl in pls]
+    mo = run_model(exe, ["b64senc %d %s" % (E, hexs(pl)) for pl in pls])
+    io = scm.run_cases(d, exprs, prelude_extra=PRELUDE, imports=IMPORTS, timeout=300, chunk=100)
+    for pl, m, i in zip(pls, mo, io):
+        ctx.count(1, key=("b64senc", pl), nontrivial=len(pl) > 0)
+        ref = pyb64.b64encode(pl)
+        if m == "FUEL" or unhex(m[2:]) != ref:
+            ctx.broken("model:base64-stream-encode-vs-oracle", "the model's stream encoder (chunk %d) differs from RFC 4648 on a %d-byte input" % (E, len(pl)))
+        if i != xs(ref):
+            rp = ("python3 -c 'import sys; sys.stdout.buffer.write(bytes.fromhex(\"%s\"))' > /tmp/c19-b64.bin; echo '(import (scheme base) (scheme write) (scheme file) (chibi base64)) "
+                  "(let ((out (open-output-bytevector))) (call-with-port (open-binary-input-file \"/tmp/c19-b64.bin\") (lambda (in) (base64-encode in out))) (write (utf8->string (get-output-bytevector out))))' "
+                  "| chibi-scheme /dev/stdin   # compare: base64 -w0 /tmp/c19-b64.bin" % pl.hex())
+            if bad(i):
+                sig = "base64:stream-encode:crash"
+            elif i.startswith("ERR"):
+                sig = "base64:stream-encode:error:" + ("empty-or-chunk-multiple" if len(pl) % E == 0 else "other")
+            else:
+                sig = "base64:stream-encode:wrong-text:" + ("padding-in-mid-stream" if b"=" in unhex(i[1:] if i != "_" else "_").rstrip(b"=") else "other") if i[:1] in "x_" else "base64:stream-encode:wrong-text:other"
+            ctx.violation(sig, input_len=len(pl), chunk=E, input=hexs(pl)[:6000], expected=xs(ref)[:300], observed=(i or "")[:300], replay=rp)
+    # ---------------- base64-encode-header
+    hcases = []
+    for name in (b"utf-8", b"ISO-8859-1"):
+        for nl in (b"\r\n", b"\n"):
+            for sc, mc in ((0, 76), (9, 76), (30, 76), (0, 40), (5, 100), (0, 1000)):
+                for n in sorted(set([0, 1, 2, 3, 10, 30, 31, 32, 33, 34, 35, 36, 45, 46, 47, 48, 60, 90, 91, 92, 93, 200] + [rng.randrange(0, 300) for _ in range(2)])):
+                    hcases.append((name, text_payload(rng, n), sc, mc, nl))
+    exprs = ['(xh (string->utf8 (base64-encode-header (utf8->string (hx "%s")) (utf8->string (hx "%s")) %d %d (utf8->string (hx "%s")))))' % (hexs(nm), hexs(pl), sc, mc, hexs(nl))
+             for nm, pl, sc, mc, nl in hcases]
+    mo = run_model(exe, ["b64hdr %s %s %d %d %s" % (hexs(nm), hexs(pl), sc, mc, hexs(nl)) for nm, pl, sc, mc, nl in hcases])
+    io = scm.run_cases(d, exprs, prelude_extra=PRELUDE, imports=IMPORTS, timeout=300, chunk=500)
+    for (nm, pl, sc, mc, nl), m, i, e in zip(hcases, mo, io, exprs):
+        ctx.count(1, key=("b64hdr", nm, pl, sc, mc, nl), nontrivial=True)
+        rp = "echo '(import (scheme base) (scheme write) (chibi base64)) %s (write (utf8->string (hx (symbol->string (quote %s)))))' | chibi-scheme /dev/stdin" % (PRELUDE.replace("\n", " ").replace("'", "'\\''"), e.replace("(xh (string->utf8 ", "").replace("'", "'\\''"))
+        ok_spec = False
+        if i and i[:1] == "x" and not bad(i):
+            hdr = unhex(i[1:])
+            words = hdr.split(nl + b"\t")
+            pre, payload, ok_spec = b"=?" + nm + b"?B?", b"", True
+            for k_, wd in enumerate(words):
+                if not (wd.startswith(pre) and wd.endswith(b"?=") and len(wd) >= len(pre) + 2):
+                    ok_spec = False
+                    break
+                body = wd[len(pre):-2]
+                if len(body) % 4 or any(c not in B64_ALPHA + b"=" for c in body) or (len(wd) + (sc if k_ == 0 else 0)) > mc:
+                    ok_spec = False
+                    break
+                payload += pyb64.b64decode(body)
+            ok_spec = ok_spec and payload == pl
+        if i != mx(m):
+            if ok_spec:
+                ctx.broken("correspondence:base64-header", "model and implementation differ but the implementation's header is well formed: %s" % e[:200])
+            else:
+                ctx.violation("base64:encode-header:differs-from-model-and-malformed", input=e[:2000], expected=mx(m)[:600], observed=(i or "")[:600], replay=rp)
+        elif not ok_spec:
+            ctx.violation("base64:encode-header:malformed", input=e[:2000], expected="encoded words =?%s?B?<quanta>?= separated by nl TAB, each word (plus start-col for the first) <= max-col, payloads concatenating to the input" % nm.decode(),
+                          observed=(i or "")[:600], replay=rp)
+    ctx.sample(dict(kind="base64-header", expr=exprs[40][:200], model=mo[40][:200], impl=io[40][:200]))
+
+
+# ------------------------------------------------------------------------------------------ every other exported entry point of the modelled codecs
+def check_entry_points(ctx, d, exe, strings):
+    """quoted-printable: -encode (current-output-port), -encode-string (string / bytevector source), -encode-bytevector reading a port,
+    with explicit start-col / max-col / separator, -encode-header, -decode, -decode-string, -decode-bytevector reading a port, mime-header? flag;
+    json: json-read / json-write on ports.  Compared with the same models the bytevector entry points are compared with."""
+    rng = ctx.rng
+    sel = [bs for bs in strings if len(bs) <= 300][:40] + [b"a" * 200, b"\xff" * 80, b"a_b?c=d e\tf\r\ng" * 9]
+    txt = [text_payload(rng, n) for n in (0, 1, 5, 70, 75, 76, 77, 150, 400)]
+    exprs, reqs, labels = [], [], []
+
+    def case(label, expr, req):
+        labels.append(label); exprs.append(expr); reqs.append(req)
+
+    sep_default = b"=\r\n"
+    for bs in sel:
+        case("qp-encode-bytevector<port", '(xh (quoted-printable-encode-bytevector (open-input-bytevector (hx "%s"))))' % hexs(bs) if bs else '(xh (quoted-printable-encode-bytevector (hx "_")))',
+             "qpencx 76 %s 0 %s" % (hexs(sep_default), hexs(bs)))
+        col, mc, sep = rng.choice([0, 3, 10]), rng.choice([20, 40, 76, 100]), rng.choice([b"=\r\n", b"=\n", b"=\r\n "])
+        case("qp-encode-bytevector:params", '(xh (quoted-printable-encode-bytevector (hx "%s") %d %d (hx "%s")))' % (hexs(bs), col, mc, hexs(sep)), "qpencx %d %s %d %s" % (mc, hexs(sep), col, hexs(bs)))
+        case("qp-encode-string<bytevector", '(xh (quoted-printable-encode-string (hx "%s")))' % hexs(bs), "qpencx 76 %s 0 %s" % (hexs(sep_default), hexs(bs)))
+        case("qp-decode-bytevector:mime", '(xh (quoted-printable-decode-bytevector (quoted-printable-encode-bytevector (hx "%s")) #t))' % hexs(bs), "id " + hexs(bs))
+    for t in txt:
+        case("qp-encode-string<string", '(xh (string->utf8 (quoted-printable-encode-string (utf8->string (hx "%s")))))' % hexs(t), "qpencx 76 %s 0 %s" % (hexs(sep_default), hexs(t)))
+        case("qp-encode>current-output-port", '(let ((out (open-output-string))) (parameterize ((current-output-port out)) (quoted-printable-encode (utf8->string (hx "%s")))) (xh (string->utf8 (get-output-string out))))' % hexs(t),
+             "qpencx 76 %s 0 %s" % (hexs(sep_default), hexs(t)))
+        case("qp-decode>current-output-port", '(let ((out (open-output-string))) (parameterize ((current-output-port out)) (quoted-printable-decode (quoted-printable-encode-string (utf8->string (hx "%s"))))) (xh (string->utf8 (get-output-string out))))' % hexs(t),
+             "id " + hexs(t))
+        case("qp-decode-string", '(xh (string->utf8 (quoted-printable-decode-string (quoted-printable-encode-string (utf8->string (hx "%s"))))))' % hexs(t), "id " + hexs(t))
+        case("qp-decode-bytevector<port", '(xh (quoted-printable-decode-bytevector (open-input-bytevector (quoted-printable-encode-bytevector (hx "%s")))))' % hexs(t) if t else '(xh (quoted-printable-decode-bytevector (hx "_")))', "id " + hexs(t))
+    for t in (b"a_b", b"_", b"a=5Fb_c", b"x_=\r\ny_ \r\nz"):
+        for mime in (0, 1):
+            case("qp-decode:mime-flag", '(xh (quoted-printable-decode-bytevector (hx "%s") %s))' % (hexs(t), "#t" if mime else "#f"), "qpdecm %d %s" % (mime, hexs(t)))
+    # header: model = prefix ++ qp_loop (max-col - prefix-length) ("?=" nl TAB prefix) bytes start-col ++ "?="
+    hdr = []
+    for nm in (b"utf-8", b"ISO-8859-1"):
+        for nl in (b"\r\n", b"\n"):
+            for sc, mc in ((0, 76), (9, 76), (0, 40), (20, 100)):
+                for t in txt[:7] + [b"hello world?", b"=?_" * 20, "Grüße aus Köln, 日本語".encode()]:
+                    pre = b"=?" + nm + b"?Q?"
+                    plen = 2 + len(pre)
+                    hdr.append((nm, nl, sc, mc, t, pre))
+                    case("qp-encode-header", '(let ((r (quoted-printable-encode-header (utf8->string (hx "%s")) (utf8->string (hx "%s")) %d %d (utf8->string (hx "%s"))))) (xh (if (string? r) (string->utf8 r) r)))'
+                         % (hexs(nm), hexs(t), sc, mc, hexs(nl)), "qpencx %d %s %d %s" % (mc - plen, hexs(b"?=" + nl + b"\t" + pre), sc, hexs(t)))
+    mo = run_model(exe, reqs)
+    io = scm.run_cases(d, exprs, prelude_extra=PRELUDE, imports=IMPORTS, timeout=300, chunk=500)
+    hi = 0
+    for lb, e, rq, m, i in zip(labels, exprs, reqs, mo, io):
+        ctx.count(1, key=("entry", lb, e), nontrivial=True)
+        if rq.startswith("qpdecm"):
+            want = None if m == "N" else mx(m[2:])
+        elif lb == "qp-encode-header":
+            nm, nl, sc, mc, t, pre = hdr[hi]; hi += 1
+            want = xs(pre + unhex(m) + b"?=")
+        else:
+            want = mx(m)
+        rp = "echo '(import (scheme base) (scheme write) (chibi quoted-printable)) %s (write %s)' | chibi-scheme /dev/stdin" % (PRELUDE.replace("\n", " ").replace("'", "'\\''"), e.replace("'", "'\\''"))
+        if want is None:
+            if bad(i):
+                ctx.violation("qp:entry:" + lb + ":crash", input=e[:2000], observed=i, replay=rp)
+            continue
+        if i != want:
+            ctx.violation("qp:entry:" + lb, input=e[:2000], expected=want[:600], observed=(i or "")[:600], replay=rp,
+                          why="an exported entry point of (chibi quoted-printable) disagrees with the model the bytevector entry point satisfies")
+    ctx.sample(dict(kind="qp-header", expr=exprs[-1][:200], model=mo[-1][:100], impl=io[-1][:200]))
+    # (chibi json): json-write / json-read on ports (string->json / json->string are thin wrappers, tied in check_json)
+    vals = [gen_json(rng, rng.choice([0, 1, 2, 3])) for _ in range(40)] + [("s", ESC_CHARS), ("a", [("i", z) for z in INTS])]
+    exprs = ['(let ((out (open-output-string))) (json-write %s out) (let* ((t (get-output-string out)) (in (open-input-string (string-append t " 7")))) '
+             '(let* ((v (json-read in)) (w (json-read in))) (list (xh (string->utf8 t)) (string->symbol (string-append "V" (jshow v))) w))))' % jscheme(v) for v in vals]
+    mw = run_model(exe, ["jwrite " + jwire(v) for v in vals])
+    me = run_model(exe, ["jexpect " + jwire(v) for v in vals])
+    io = scm.run_cases(d, exprs, prelude_extra=PRELUDE, imports=IMPORTS, timeout=300, chunk=100)
+    for v, w_, e_, i, ex in zip(vals, mw, me, io, exprs):
+        ctx.count(1, key=("json-port", jwire(v)), nontrivial=True)
+        want = ("(%s %s 7)" % (mx(w_[2:]), "V" + e_[2:]), "(%s |%s| 7)" % (mx(w_[2:]), "V" + e_[2:]))
+        if i not in want:
+            ctx.violation("json:entry:json-write/json-read-on-ports", input=jwire(v)[:1000], expected=want[0][:600], observed=(i or "")[:600],
+                          replay="echo '(import (scheme base) (scheme write) (chibi json)) (define (cps . l) (list->string (map integer->char l))) (let ((out (open-output-string))) (json-write %s out) (write (get-output-string out)) (write (json-read (open-input-string (get-output-string out)))))' | chibi-scheme /dev/stdin" % jscheme(v).replace("'", "'\\''"))
+
+
 # ------------------------------------------------------------------------------------------ quoted-printable
 def qp_lines_ok(enc):
     return all(len(l) <= 76 for l in enc.split(b"\r\n")) and all(33 <= c <= 126 or c in (13, 10) for c in enc)
@@ -343,45 +716,105 @@ def py_int_encode(w, big, v):
     return (v % (1 << (8 * w))).to_bytes(w, "big" if big else "little")
 
 
-def acc_names(w, signed):
-    us = "s" if signed else "u"
-    if w == 1:
-        return [("bytevector-%s8-ref" % us, "bytevector-%s8-set!" % us, None)]
-    n = 8 * w
-    return [("bytevector-%s%d-ref" % (us, n), "bytevector-%s%d-set!" % (us, n), True),      # takes an endianness
-            ("bytevector-%s%d-native-ref" % (us, n), "bytevector-%s%d-native-set!" % (us, n), False)]
+def fallback_table():
+    """the accessor names by the R6RS naming scheme, used to drive the sweep only when the translator could not read the stub"""
+    t = []
+    for w in (1, 2, 4, 8):
+        for signed in (True, False):
+            us, n = ("s" if signed else "u"), 8 * w
+            if w == 1:
+                if signed:
+                    t += [dict(name="bytevector-s8-ref", set=False, endian=False, kind="KSint", width=1), dict(name="bytevector-s8-set!", set=True, endian=False, kind="KSint", width=1)]
+                continue
+            for nat in ("-native", ""):
+                for st in (False, True):
+                    t.append(dict(name="bytevector-%s%d%s-%s" % (us, n, nat, "set!" if st else "ref"), set=st, endian=not nat, kind="KSint" if signed else "KUint", width=w))
+    for nm, w, kd in (("single", 4, "KF32"), ("double", 8, "KF64")):
+        for nat in ("-native", ""):
+            for st in (False, True):
+                t.append(dict(name="bytevector-ieee-%s%s-%s" % (nm, nat, "set!" if st else "ref"), set=st, endian=not nat, kind=kd, width=w))
+    return t
 
 
 def zh(v):
     return ("-%x" % -v) if v < 0 else ("%x" % v)
 
 
-def check_accessors(ctx, d, exe):
+FLOAT_VALUES = [0.0, -0.0, 1.0, -1.5, 2.0, 0.1, 1.0 / 3, 3.141592653589793, float("inf"), float("-inf"), float("nan"), 1.7976931348623157e308, 5e-324, 1e-310,
+                2.2250738585072014e-308, 1.1754943508222875e-38, 1.401298464324817e-45, 3.4028234663852886e38, 1e39, -1e39, 16777217.0, 1e-46, 65504.0]
+
+
+def flit(x):
+    import math
+    if math.isnan(x):
+        return "+nan.0"
+    if math.isinf(x):
+        return "+inf.0" if x > 0 else "-inf.0"
+    return repr(x)
+
+
+def fbits(x, w):
+    """the bit pattern a C conversion of the double x to a w-byte IEEE format has, as an unsigned integer"""
+    import struct, math
+    if w == 8:
+        return int.from_bytes(struct.pack("<d", x), "little")
+    try:
+        return int.from_bytes(struct.pack("<f", x), "little")
+    except OverflowError:
+        return 0x7f800000 if x > 0 else 0xff800000
+
+
+def check_accessors(ctx, d, exe, table, dasan=None):
+    """K-outer over the REGENERATED table: every accessor x every offset -1 .. len+1 (and far offsets) x byte order;
+    the window that counts is the ACCESSED one (sizeof of the C type the inline text copies)."""
+    import struct, math
     rng = ctx.rng
     exprs, reqs, meta = [], [], []
-    for w in (1, 2, 4, 8):
-        for signed in (False, True):
-            lo, hi = (-(1 << (8 * w - 1)), (1 << (8 * w - 1)) - 1) if signed else (0, (1 << (8 * w)) - 1)
-            vals = sorted(set([lo, lo + 1, hi, hi - 1, 0, 1, -1 if signed else 2, hi // 2, hi // 2 + 1, 0x0102030405060708 & hi]
-                              + [rng.randrange(lo, hi + 1) for _ in range(3 if not ctx.thorough else 30)]))
-            oob_vals = [hi + 1, lo - 1, 1 << 70, -(1 << 70) - 5]
-            for rname, sname, endian in acc_names(w, signed):
-                for ln in sorted(set([0, 1, w - 1, w, w + 1, w + 3, 2 * w + 1])):
-                    if ln < 0:
-                        continue
-                    bv = bytes(rng.choice((0x00, 0xff, 0x7f, 0x80, rng.getrandbits(8))) for _ in range(ln))
-                    for k in list(range(-1, ln + 2)) + [1 << 31, (1 << 32) + 0, -(1 << 40), 1 << 62]:
-                        for big in ((False, True) if endian else (False,)):
-                            earg = (" 'big" if big else " 'little") if endian else ""
-                            # ref
-                            exprs.append('(%s (hx "%s") %d%s)' % (rname, hexs(bv), k, earg))
-                            reqs.append("bvref %d %d %d %s %s" % (w, signed, big, hexs(bv), zh(k)))
-                            meta.append(("ref", rname, w, signed, big, bv, k, None))
-                            # set
+    if not table:
+        table = fallback_table()
+    for e in table:
+        w, name, isset, endian, kind = e["width"], e["name"], e["set"], e["endian"], e["kind"]
+        isfloat = kind in ("KF32", "KF64")
+        signed = kind == "KSint"
+        lo, hi = (-(1 << (8 * w - 1)), (1 << (8 * w - 1)) - 1) if signed else (0, (1 << (8 * w)) - 1)
+        vals = sorted(set([lo, lo + 1, hi, hi - 1, 0, 1, -1 if signed else 2, hi // 2, hi // 2 + 1, 0x0102030405060708 & hi]
+                          + [rng.randrange(lo, hi + 1) for _ in range(3 if not ctx.thorough else 30)]))
+        oob_vals = [hi + 1, lo - 1, 1 << 70, -(1 << 70) - 5]
+        fvals = FLOAT_VALUES + [struct.unpack("<d", struct.pack("<Q", rng.getrandbits(64)))[0] for _ in range(6 if not ctx.thorough else 60)]
+        fvals = [x for x in fvals if not (math.isnan(x) and x not in FLOAT_VALUES[:11])]
+        for ln in sorted(set([0, 1, w - 1, w, w + 1, w + 3, 2 * w + 1])):
+            if ln < 0:
+                continue
+            for k in list(range(-1, ln + 2)) + [1 << 31, (1 << 32) + 0, -(1 << 40), 1 << 62]:
+                for big in ((False, True) if endian else (False,)):
+                    if isfloat and not isset:
+                        # bytes that are interesting as IEEE patterns: specials in the window when there is one
+                        bvb = bytearray(rng.choice((0x00, 0xff, 0x7f, 0x80, 0xf0, rng.getrandbits(8))) for _ in range(ln))
+                        if 0 <= k and k + w <= ln and rng.random() < 0.6:
+                            pat = fbits(rng.choice(fvals), w).to_bytes(w, "big" if big else "little")
+                            bvb[k:k + w] = pat
+                        bv = bytes(bvb)
+                    else:
+                        bv = bytes(rng.choice((0x00, 0xff, 0x7f, 0x80, rng.getrandbits(8))) for _ in range(ln))
+                    earg = (" 'big" if big else " 'little") if endian else ""
+                    if not isset:
+                        if isfloat:
+                            exprs.append('(let ((x (%s (hx "%s") %d%s)) (t (make-bytevector 8 0))) (bytevector-ieee-double-native-set! t 0 x) (xh t))' % (name, hexs(bv), k, earg))
+                        else:
+                            exprs.append('(%s (hx "%s") %d%s)' % (name, hexs(bv), k, earg))
+                        reqs.append("bvref %d %d %d %s %s" % (w, signed, big, hexs(bv), zh(k)))
+                        meta.append(("ref", name, w, signed, big, bv, k, None, kind))
+                    else:
+                        if isfloat:
+                            x = rng.choice(fvals)
+                            exprs.append('(let ((bv (hx "%s"))) (%s bv %d %s%s) (xh bv))' % (hexs(bv), name, k, flit(x), earg))
+                            reqs.append("bvset %d %d %s %s %s" % (w, big, hexs(bv), zh(k), zh(fbits(x, w))))
+                            meta.append(("set", name, w, signed, big, bv, k, x, kind))
+                        else:
                             v = rng.choice(vals) if rng.random() < 0.9 else rng.choice(oob_vals)
-                            exprs.append('(let ((bv (hx "%s"))) (%s bv %d %d%s) (xh bv))' % (hexs(bv), sname, k, v, earg))
+                            exprs.append('(let ((bv (hx "%s"))) (%s bv %d %d%s) (xh bv))' % (hexs(bv), name, k, v, earg))
                             reqs.append("bvset %d %d %s %s %s" % (w, big, hexs(bv), zh(k), zh(v)))
-                            meta.append(("set", sname, w, signed, big, bv, k, v))
+                            meta.append(("set", name, w, signed, big, bv, k, v, kind))
     # arbitrary-size Scheme accessors (sizes incl. 3, 5, 9)
     for size in (1, 2, 3, 5, 8, 9):
         for signed in (False, True):
@@ -394,50 +827,94 @@ def check_accessors(ctx, d, exe):
                         e = "'big" if big else "'little"
                         exprs.append('(bytevector-%sint-ref (hx "%s") %d %s %d)' % (us, hexs(bv), k, e, size))
                         reqs.append("bvref %d %d %d %s %s" % (size, signed, big, hexs(bv), zh(k)))
-                        meta.append(("ref", "bytevector-%sint-ref" % us, size, signed, big, bv, k, None))
+                        meta.append(("ref", "bytevector-%sint-ref" % us, size, signed, big, bv, k, None, "KSint" if signed else "KUint"))
                         v = rng.choice([lo, hi, 0, -1 if signed else 1, rng.randrange(lo, hi + 1)])
                         exprs.append('(let ((bv (hx "%s"))) (bytevector-%sint-set! bv %d %d %s %d) (xh bv))' % (hexs(bv), us, k, v, e, size))
                         reqs.append("bvset %d %d %s %s %s" % (size, big, hexs(bv), zh(k), zh(v)))
-                        meta.append(("set", "bytevector-%sint-set!" % us, size, signed, big, bv, k, v))
+                        meta.append(("set", "bytevector-%sint-set!" % us, size, signed, big, bv, k, v, "KSint" if signed else "KUint"))
     mo = run_model(exe, reqs)
-    io = scm.run_cases(d, exprs, prelude_extra=PRELUDE, imports=IMPORTS, timeout=150, chunk=1000)
+    builds = [("default", d, list(range(len(exprs))))]
+    if dasan is not None:
+        # under ASan: every case whose window is not inside the bytevector (an accepted one reads/writes outside the object) and the boundary ones
+        sel = [j for j, (m_, mt) in enumerate(zip(mo, meta)) if m_ == "N" or mt[6] + mt[2] == len(mt[5]) or mt[6] == 0]
+        builds.append(("asan", dasan, sel))
     shown = 0
-    for e, m, i, mt in zip(exprs, mo, io, meta):
-        kind, name, w, signed, big, bv, k, v = mt
-        inb = 0 <= k and k + w <= len(bv)
-        ctx.count(1, key=(name, big, bv, k, v), nontrivial=True)
-        rp = "echo '(import (scheme base) (scheme write) (scheme bytevector)) %s (write %s)' | chibi-scheme /dev/stdin" % (PRELUDE.replace("\n", " ").replace("'", "'\\''"), e.replace("'", "'\\''"))
-        if bad(i):
-            ctx.violation("accessor:crash:" + name, input=e, expected=m, observed=i, replay=rp)
-            continue
-        if m == "N":
-            if not i.startswith("ERR"):
-                # uint/sint accessors of size 0 window etc. never get here (w>0); an access outside the bytevector returned a value
-                where = "k+w>len" if (0 <= k < len(bv)) else ("k<0" if k < 0 else "k>=len")
-                ctx.violation("accessor:out-of-bounds:%s:%s" % (name, where), input=e, expected="error (window [k,k+%d) not inside 0..%d)" % (w, len(bv)),
-                              observed=i, replay=rp)
-            continue
-        assert inb
-        if kind == "ref":
-            p = scm.parse_int(i)
-            if p is None or ("S " + zh(p[1])) != m:
-                ref = int.from_bytes(bv[k:k + w], "big" if big else "little", signed=signed)
-                if p is None or p[1] != ref:
-                    ctx.violation("accessor:ref-value:" + name, input=e, expected=zh(ref), observed=i, replay=rp)
+    for label, dd, sel in builds:
+        io_sel = scm.run_cases(dd, [exprs[j] for j in sel], prelude_extra=PRELUDE, imports=IMPORTS, timeout=200, chunk=1000)
+        for j, i in zip(sel, io_sel):
+            e, m, mt = exprs[j], mo[j], meta[j]
+            kind, name, w, signed, big, bv, k, v, akind = mt
+            isfloat = akind in ("KF32", "KF64")
+            inb = 0 <= k and k + w <= len(bv)
+            ctx.count(1, key=(label, name, big, bv, k, repr(v)), nontrivial=True)
+            rp = "echo '(import (scheme base) (scheme write) (scheme bytevector)) %s (write %s)' | chibi-scheme /dev/stdin%s" % (
+                PRELUDE.replace("\n", " ").replace("'", "'\\''"), e.replace("'", "'\\''"), "" if label == "default" else "   # build variant: asan")
+            if bad(i):
+                ctx.violation("accessor:crash:" + name, input=e, expected=m, observed=i, build=label, replay=rp)
+                continue
+            if m == "N":
+                if not i.startswith("ERR"):
+                    where = "k+w>len" if (0 <= k < len(bv)) else ("k<0" if k < 0 else "k>=len")
+                    ctx.violation("accessor:out-of-bounds:%s:%s" % (name, where), input=e, expected="error (window [k,k+%d) not inside 0..%d)" % (w, len(bv)),
+                                  observed=i, build=label, replay=rp)
+                continue
+            assert inb
+            if kind == "ref" and isfloat:
+                P = int(m[2:], 16)                                     # the w-byte pattern, as the model reads it (byte order applied)
+                if w == 8:
+                    wantbits = P
+                    nan = (P >> 52) & 0x7ff == 0x7ff and P & ((1 << 52) - 1) != 0
                 else:
-                    ctx.broken("correspondence:accessor-ref", "model differs, implementation right: %s model=%s impl=%s" % (e, m, i))
-        else:
-            lo, hi = (-(1 << (8 * w - 1)), (1 << (8 * w - 1)) - 1) if signed else (0, (1 << (8 * w)) - 1)
-            if i.startswith("ERR") and not (lo <= v <= hi):
-                continue        # a value outside the representable range may be refused (u8) or reduced mod 2^bits (stub accessors)
-            if i != mx(m[2:]):
-                ref = bv[:k] + py_int_encode(w, big, v) + bv[k + w:]
-                if i != xs(ref):
-                    ctx.violation("accessor:set-bytes:" + name, input=e, expected=hexs(ref), observed=i, replay=rp)
-                else:
-                    ctx.broken("correspondence:accessor-set", "model differs, implementation right: %s model=%s impl=%s" % (e, m, i))
-        if shown < 2 and inb and w > 1:
-            ctx.sample(dict(kind="accessor", expr=e, model=m, impl=i)); shown += 1
+                    x = struct.unpack("<f", P.to_bytes(4, "little"))[0]
+                    nan = math.isnan(x)
+                    wantbits = int.from_bytes(struct.pack("<d", x), "little")
+                got = int.from_bytes(unhex(i[1:]), "little") if i[:1] == "x" and len(i) == 17 else None
+                gotnan = got is not None and (got >> 52) & 0x7ff == 0x7ff and got & ((1 << 52) - 1) != 0
+                if i.startswith("ERR") or got is None or (gotnan != nan) or (not nan and got != wantbits):
+                    ctx.violation("accessor:ref-value:" + name, input=e, expected="double with bits %016x%s" % (wantbits, " (any NaN)" if nan else ""), observed=i, build=label, replay=rp)
+            elif kind == "ref":
+                p = scm.parse_int(i)
+                if p is None or ("S " + zh(p[1])) != m:
+                    ref = int.from_bytes(bv[k:k + w], "big" if big else "little", signed=signed)
+                    if p is None or p[1] != ref:
+                        ctx.violation("accessor:ref-value:" + name, input=e, expected=zh(ref), observed=i, build=label, replay=rp)
+                    else:
+                        ctx.broken("correspondence:accessor-ref", "model differs, implementation right: %s model=%s impl=%s" % (e, m, i))
+            elif isfloat:
+                if i != mx(m[2:]):
+                    if math.isnan(v) and i[:1] == "x":
+                        got = unhex(i[1:])[k:k + w]
+                        gx = struct.unpack(("<" if not big else ">") + ("d" if w == 8 else "f"), got)[0] if len(got) == w else 0.0
+                        if math.isnan(gx) and unhex(i[1:])[:k] == bv[:k] and unhex(i[1:])[k + w:] == bv[k + w:]:
+                            continue        # some NaN was stored; which one is the C library's choice
+                    ctx.violation("accessor:set-bytes:" + name, input=e, expected=mx(m[2:]), observed=i, build=label, replay=rp,
+                                  why="bytes after storing %s must be the IEEE pattern %x in the requested byte order, nothing outside the window changed" % (flit(v), fbits(v, w)))
+            else:
+                lo, hi = (-(1 << (8 * w - 1)), (1 << (8 * w - 1)) - 1) if signed else (0, (1 << (8 * w)) - 1)
+                if i.startswith("ERR") and not (lo <= v <= hi):
+                    continue        # a value outside the representable range may be refused (u8) or reduced mod 2^bits (stub accessors)
+                if i != mx(m[2:]):
+                    ref = bv[:k] + py_int_encode(w, big, v) + bv[k + w:]
+                    if i != xs(ref):
+                        ctx.violation("accessor:set-bytes:" + name, input=e, expected=hexs(ref), observed=i, build=label, replay=rp)
+                    else:
+                        ctx.broken("correspondence:accessor-set", "model differs, implementation right: %s model=%s impl=%s" % (e, m, i))
+            if shown < 3 and inb and w > 1 and (isfloat or shown < 1):
+                ctx.sample(dict(kind="accessor", expr=e, model=m, impl=i)); shown += 1
+
+
+def check_accessor_exports(ctx, table):
+    """every -ref / -set! accessor exported by (scheme bytevector) is either a row of the regenerated table or one of the
+    Scheme-level ones the model covers directly"""
+    import re
+    src = open(os.path.join(B.REPO, "lib", "scheme", "bytevector.sld")).read()
+    m = re.search(r"\(export(.*?)\)\s*\(cond-expand", src, re.S)
+    names = set(re.findall(r"bytevector-[a-z0-9-]+-(?:ref|set!)", m.group(1) if m else src))
+    have = set(e["name"] for e in table) | {"bytevector-u8-ref", "bytevector-u8-set!", "bytevector-uint-ref", "bytevector-sint-ref", "bytevector-uint-set!", "bytevector-sint-set!"}
+    missing = sorted(names - have)
+    if missing and table:
+        ctx.broken("gen:C19_AccTable:exports", "accessors exported by lib/scheme/bytevector.sld with no row in the table regenerated from bytevector.stub: %s" % " ".join(missing))
+    ctx.note("accessor table: %d rows regenerated from lib/scheme/bytevector.stub (%d ieee); %d accessor names exported by bytevector.sld" % (len(table), sum(1 for e in table if e["kind"] in ("KF32", "KF64")), len(names)))
 
 
 # ------------------------------------------------------------------------------------------ JSON
@@ -657,24 +1134,61 @@ def run(ctx):
                        "text-like and run-heavy mixes) through each encoder and decoder: implementation output = extracted model output byte for byte "
                        "and decode(encode x) = x on the implementation; decoders also get valid text with out-of-band characters interleaved and a "
                        "hostile stream (bit flips, truncation, bad padding, junk, random bytes); numeric accessors over every offset -1..len+1 and far "
-                       "out-of-range offsets x widths 1,2,4,8 (+ sizes 3,5,9 of the generic accessors) x signedness x endianness x boundary values; "
+                       "out-of-range offsets x EVERY accessor of the table regenerated from bytevector.stub (integer and ieee, ref/set!, native/explicit byte order; + sizes 3,5,9 of the "
+                       "generic accessors) x boundary values, floats by bit pattern, default build and (out-of-window and edge offsets) asan build; base64 on ports: wrapped text "
+                       "(every width 60-80, LF and CRLF) crossing 1-3 chunk boundaries with a line break at every offset -4..+4 around the first boundary and near the later ones, "
+                       "padding / blanks / junk astride the boundaries, exact multiples of the chunk size, the empty stream; "
                        "a case is distinct by (operation, input bytes, offset, value) and non-trivial unless the input is empty")
+    from gen import c19_accessors
+    table, _others = c19_accessors.regen(ctx)
+    check_accessor_exports(ctx, table)
     ctx.coq_obligations("Properties_C19")
     d = ctx.build("default")
     exe = ctx.extract("C19")
     if exe is None:
         return
     import time
-    check_corpus(ctx, d)
+    only = set(filter(None, os.environ.get("C19_ONLY", "").split(",")))       # developer switch: run some sections only (never set by ./check users)
+    if only:
+        ctx.broken("partial-run", "C19_ONLY=%s: sections skipped" % ",".join(sorted(only)))
+    def on(sec):
+        return not only or sec in only
+    if on("corpus"):
+        check_corpus(ctx, d)
     strings = byte_strings(ctx.rng, ctx.thorough)
-    t0 = time.time(); check_base64(ctx, d, exe, strings); t1 = time.time()
-    check_qp(ctx, d, exe, strings); t2 = time.time()
-    check_uri(ctx, d, exe)
-    check_accessors(ctx, d, exe); t3 = time.time()
+    t0 = time.time()
+    if on("base64"):
+        check_base64(ctx, d, exe, strings)
+    t1 = time.time()
+    if on("stream"):
+        check_base64_stream(ctx, d, exe)
+    t1b = time.time()
+    if on("qp"):
+        check_qp(ctx, d, exe, strings)
+    if on("entry"):
+        check_entry_points(ctx, d, exe, strings)
+    t2 = time.time()
+    if on("uri"):
+        check_uri(ctx, d, exe)
     dasan = ctx.build("asan"); t4 = time.time()
-    check_json(ctx, d, exe, dasan); t5 = time.time()
-    ctx.note("wall seconds: base64 %.1f, qp %.1f, accessors %.1f, asan build %.1f, json %.1f" % (t1 - t0, t2 - t1, t3 - t2, t4 - t3, t5 - t4))
-    ctx.assume("floating-point accessors (ieee-single/double), SRFI 160 uniform vectors, CSV, mini-floats and the streaming/port and *-header variants of the codecs are outside this check; JSON floats are compared by class only")
+    if on("acc"):
+        check_accessors(ctx, d, exe, table, dasan)
+    t3 = time.time()
+    if on("json"):
+        check_json(ctx, d, exe, dasan)
+    t5 = time.time()
+    ctx.note("wall seconds: base64 %.1f, base64 ports/header %.1f, qp + entry points %.1f, uri + asan build %.1f, accessors (default+asan) %.1f, json %.1f" % (t1 - t0, t1b - t1, t2 - t1b, t4 - t2, t3 - t4, t5 - t3))
+    ctx.assume("exported entry points NOT modelled and NOT exercised: (chibi csv) (whole library), (chibi json) make-json-reader, (chibi uri) uri->string / string->uri / "
+               "string->path-uri / make-uri / uri-with-* / uri-resolve / uri-query->alist / uri-alist->query (the last two only call uri-encode / uri-decode, which are modelled), "
+               "(scheme bytevector) string->utf16 / utf16->string / string->utf32 / utf32->string / bytevector->uint-list and friends, SRFI 160 uniform vectors (uvprims.stub), "
+               "mini-floats; JSON floats are compared by class only")
+    ctx.assume("every exported entry point of (chibi base64) and (chibi quoted-printable) is exercised: bytevector, string, binary-port, textual-port, current-output-port and "
+               "*-header variants; (chibi json): string->json, json->string, json-read and json-write on string ports; (scheme bytevector): every accessor the stub defines "
+               "(regenerated table) plus the generic uint/sint ones")
+    ctx.assume("ieee accessors are modelled as transport of the bit pattern; the C conversions double<->float of the single-precision ones are judged by Python's struct (NaN payloads: any NaN accepted); "
+               "floating-point arguments reach the accessor through the reader (decimal literals, C08)")
+    ctx.assume("base64-encode-header / quoted-printable-encode-header are exercised with parameters that leave room for at least one quantum on the first line (start-col + prefix < max-col); "
+               "max-col <= 3 (+ prefix) makes qp-encode / string-chop loop forever: hostile parameter, not input")
     ctx.assume("json_roundtrip carries the explicit fuel premise need v <= fuel; that the library-level fuel 2*len+2 always suffices is observed (no FUEL outcome), not proved")
     ctx.assume("indices >= 2^64 given to the stub accessors are reduced mod 2^64 by sexp_sint_value before the bounds assertion (chibi-ffi convention); not exercised")
     ctx.trust("byte reversal stands for the sexp_swap_* bit arithmetic of bytevector.stub; utf8->string/string->utf8 (C12) carry the string variants of the codecs; "
